@@ -305,3 +305,30 @@ func BuildCSR(k *PrivateKey, cn string, sign func(tbs []byte) (algID []byte, sig
 	}
 	return refder.Seq(info, alg, refder.EncBitString(sig, 0))
 }
+
+// ECScalarWithTrailingZeroBits returns the smallest scalar d >= 2 whose
+// uncompressed public point ends in at least `bits` zero bits, so that the
+// same octets can be carried by a DER BIT STRING that declares that many
+// unused bits.
+func ECScalarWithTrailingZeroBits(ci *CurveInfo, bits int) *big.Int {
+	mask := byte(1<<uint(bits) - 1)
+	for d := int64(2); ; d++ {
+		x, y := ci.Curve.ScalarBaseMult(big.NewInt(d).Bytes())
+		pt := MarshalPoint(ci, x, y)
+		if pt[len(pt)-1]&mask == 0 {
+			return big.NewInt(d)
+		}
+	}
+}
+
+// BuildCSRUnusedBits is BuildCSR for an EC key whose subjectPublicKey BIT
+// STRING declares `unused` unused bits (the point must end in that many zero
+// bits; see ECScalarWithTrailingZeroBits).
+func BuildCSRUnusedBits(ci *CurveInfo, d *big.Int, unused int, cn string) []byte {
+	x, y := ci.Curve.ScalarBaseMult(d.Bytes())
+	spki := refder.Seq(refder.Seq(refder.MustOID(OIDECPublicKey), refder.MustOID(ci.OID)),
+		refder.EncBitString(MarshalPoint(ci, x, y), unused))
+	name := refder.Seq(refder.SetOf(refder.Seq(refder.MustOID("2.5.4.3"), refder.EncUTF8(cn))))
+	info := refder.Seq(refder.EncInt64(0), name, spki, refder.Enc(refder.ClassContext, 0, true, nil))
+	return refder.Seq(info, refder.Seq(refder.MustOID(OIDSHA256ECDSA)), refder.EncBitString([]byte{0x30, 0x06, 0x02, 0x01, 0x01, 0x02, 0x01, 0x01}, 0))
+}
